@@ -41,8 +41,15 @@ def strategy_case(draw):
             N = list(x["N"])
             N[ax] = draw(st.integers(1, 4))
             others.append(draw(gen.tt_spec(N=N, dt=dt, mode=mode)))
-        return {"op": op, "x": x, "others": others, "axis": ax, "container": draw(st.sampled_from(["tuple", "list"])),
+        case = {"op": op, "x": x, "others": others, "axis": ax, "container": draw(st.sampled_from(["tuple", "list"])),
                 "argform": draw(gen.int_form(("neg", "np")))}
+        if draw(st.integers(0, 9)) == 0:
+            # operands of different dtype: torch.cat would promote; the library may refuse, but must not return a value that
+            # differs from the promoted concatenation (e.g. by dropping imaginary parts)
+            other_dt = draw(st.sampled_from([t for t in gen.DTYPES_ALL if t != dt]))
+            case["others"][0] = dict(case["others"][0], dt=other_dt)
+            case["mixed_dtype"] = True
+        return case
     if op == "pad":
         x = draw(gen.tt_spec(dmin=1, dmax=4, sizes=SZ, dt=dt, mode=mode, maxnumel=400))
         d = len(x["N"])
@@ -137,6 +144,21 @@ def execute(case):
         ocs = [core.make_cores(o) for o in case["others"]]
         tts = [x] + [T.TT(core.clone_cores(c)) for c in ocs]
         arg = tuple(tts) if case["container"] == "tuple" else list(tts)
+        if case.get("mixed_dtype"):
+            ck.label("cat:mixed_dtype")
+            try:
+                res = lib(lambda: T.cat(arg, ax))
+            except core.LibraryException as e:
+                if type(e.orig).__name__ in ("InvalidArguments", "IncompatibleTypes", "ShapeMismatch"):
+                    ck.label("cat:mixed_dtype_rejected")
+                    return ck.verdict()
+                raise
+            refm = torch.cat([core.widen(xd).to(torch.complex128)] + [core.widen(dense(c)).to(torch.complex128) for c in ocs], ax)
+            got_d = core.widen(dense(res.cores)).to(torch.complex128) if isinstance(res, T.TT) else None
+            ck.require(got_d is not None and list(got_d.shape) == list(refm.shape) and
+                       fro(got_d - refm) <= 1e-5 * max(fro(refm), 1e-300), "cat_mixed_dtype_value",
+                       "cat of operands with different dtypes returned a value that is not the promoted concatenation")
+            return ck.verdict()
         form = case.get("argform", "plain")
         if form != "plain":
             ck.label("argform:" + form)
